@@ -58,3 +58,27 @@ pub fn random_id(site: &'static str, random: String) -> String {
         None => random,
     }
 }
+
+static ORDER_HOOK: OnceLock<fn(&'static str, usize) -> usize> = OnceLock::new();
+
+/// Install the process-wide hook that decides iteration orders which would
+/// otherwise depend on `std`'s randomly keyed hasher. Returns `false` if one
+/// was already installed.
+pub fn set_order_hook(hook: fn(&'static str, usize) -> usize) -> bool {
+    ORDER_HOOK.set(hook).is_ok()
+}
+
+/// Puts `items` (the drained content of a randomly ordered map) into an order
+/// chosen by the simulator: sorted by key, then rotated by the hook's choice.
+/// Without a hook the order is the sorted one.
+pub fn simulated_order<K: Ord, V>(site: &'static str, mut items: Vec<(K, V)>) -> Vec<(K, V)> {
+    items.sort_by(|a, b| a.0.cmp(&b.0));
+    if let Some(hook) = ORDER_HOOK.get() {
+        let n = items.len();
+        if n > 1 {
+            let k = hook(site, n) % n;
+            items.rotate_left(k);
+        }
+    }
+    items
+}
